@@ -1031,6 +1031,11 @@ package readline
 //@   assume_nopanic as menuComplete
 //@   requires fullok(rl)
 //@   at_call Engine).Select [candidates-are-for-this-word] old(completion.isactive(rl.completer)) || completion.gencount() > old(completion.gencount())
+//@ func (*Shell).insertCompletions
+//@   props C14
+//@   assume_nopanic as menuComplete
+//@   requires fullok(rl)
+//@   at_call Engine).Select [candidates-are-for-this-word] old(completion.isactive(rl.completer)) || completion.gencount() > old(completion.gencount())
 //@ func (*Shell).completeWord
 //@   props C14
 //@   assume_nopanic as menuComplete
